@@ -41,12 +41,15 @@ with open(os.path.join(V, "seeded", "RESULTS.md"), "w") as f:
     f.write("# Seeded changes: which check reports which change\n\n")
     f.write("Every change below was confirmed by `tools/verify_seed.sh` (builds; whole suite passes with it; its demonstration fails\n"
             "with it and passes without it). *first run* = what the owning property's check reported the first time the change was\n"
-            "applied (round 2 only: those changes were produced after all checks existed and without knowledge of them).\n"
+            "applied (rounds 2 and 3: those changes were produced after the checks existed and without knowledge of them).\n"
             "*now* = rules of the owning check that report it on the committed checker (`tools/seedrun.sh`).\n\n")
-    r2 = [r for r in rows if r[2] == 2]
-    miss = [r for r in r2 if r[4] == "MISSED"]
-    f.write(f"Round 2 (independent): {len(r2)} changes, {len(r2)-len(miss)} reported at first run, {len(miss)} missed at first run; "
-            f"after strengthening, {sum(1 for r in r2 if r[5] not in ('?', 'MISSED'))} of {len(r2)} are reported.\n\n")
+    for rnd, label in ((2, "Round 2 (independent, after all checks existed)"), (3, "Round 3 (independent, after the round-2 strengthening)")):
+        rr = [r for r in rows if r[2] == rnd]
+        if not rr:
+            continue
+        miss = [r for r in rr if r[4] == "MISSED"]
+        f.write(f"{label}: {len(rr)} changes, {len(rr)-len(miss)} reported at first run, {len(miss)} missed at first run; "
+                f"after strengthening, {sum(1 for r in rr if r[5] not in ('?', 'MISSED'))} of {len(rr)} are reported.\n\n")
     f.write("| change | property | round | what was changed | first run | now |\n|---|---|---|---|---|---|\n")
     for r in rows:
         f.write(f"| {r[0]} | {r[1]} | {r[2]} | {r[3]} | {r[4]} | {r[5]} |\n")
